@@ -4,6 +4,7 @@ import BiotiteModel.Proofs.C12Loc
 import BiotiteModel.Proofs.C12Gff
 import BiotiteModel.Proofs.C12Gb
 import BiotiteModel.Proofs.C12Grp
+import BiotiteModel.Proofs.C12Feat
 import BiotiteModel.Gen.C12
 /-!
 # C12 — property theorems (sequence file formats return what was written)
@@ -226,6 +227,50 @@ theorem C12_genbank_wf_start :
     GbWF Gb.empty ∧ ∀ bs : List GbBlock, (∀ b ∈ bs, GbBlockOk b) → GbWF (gbRead (gbFlat bs ++ [gbTerm])) :=
   ⟨gbWF_empty, gbWF_read⟩
 
+
+/-! ## GenBank feature table and ORIGIN block (line level) -/
+
+/-- **Qualifier text round trip.**  The text `get_annotation` accumulates for a feature written by
+`set_annotation` (location, then one line per qualifier: `/key`, or `/key="piece"` for every piece
+of `value.split("\n")`; the code does not wrap lines) is split by the regex scanner and the
+qualifier loop into the same location string and the same qualifiers, in order.  Exactly what the
+format cannot express is excluded: keys with whitespace, `=` or `"` (`QKeyOk`; `/` is fine), values
+containing `"` (`QValOk`; blanks at either end, `/`, `=`, empty values, `\n` are all fine), and
+duplicate keys (a `dict`). -/
+theorem C12_qualifiers_roundtrip (loc : Str) (hloc : LocStrOk loc) (quals : List Qual)
+    (hk : ∀ q ∈ quals, QKeyOk q.1) (hv : ∀ q ∈ quals, ∀ v, q.2 = some v → QValOk v)
+    (hnd : (quals.map (·.1)).Nodup) :
+    parseFeatVal (featValue loc quals) = .ok (loc, quals) :=
+  qualifiers_roundtrip loc hloc quals hk hv hnd
+
+/-- what the format cannot express (the code has no escape for `"`): the value `a"b` is not
+recovered (it comes back as `a` plus a spurious value-less key) — replayed on the real code by the
+corpus case `gbf_rt` with the same feature; likewise a key containing `=`. -/
+theorem C12_qualifiers_quote_inexpressible :
+    parseFeatVal (featValue "7".toList [("note".toList, some "a\"b".toList)]) =
+      .ok ("7".toList, [("note".toList, some "a".toList), ("\"".toList, none)]) ∧
+    parseFeatVal (featValue "7".toList [("a=b".toList, some "v".toList)]) ≠
+      .ok ("7".toList, [("a=b".toList, some "v".toList)]) := by decide
+
+/-- **ORIGIN round trip**: a sequence of any length (0, 1, non-multiples of 10 and 60) with any
+`sequence_start` (negative included: repaired reader) is read back as the lower-cased sequence and
+the same start; symbols (after lower-casing) are anything but digits, blanks and `-`. -/
+theorem C12_origin_roundtrip (start : Int) (seq : Str) (h : ∀ c ∈ lower seq, OSymOk c) :
+    originSeq (printOrigin start seq) = lower seq ∧ originStart (printOrigin start seq) = .ok start :=
+  ⟨origin_seq_roundtrip start seq h, origin_start_roundtrip start seq⟩
+
+/-- **Feature table round trip**: key column + location (`C12_loc_roundtrip`) + qualifiers for a
+list of features: `get_annotation (set_annotation fs) = fs`, order kept.  Keys fit the 15-character
+key column without blanks at the ends (`FeatKeyOk`); locations expressible; qualifiers as above. -/
+theorem C12_feature_roundtrip (fs : List GbFeat) (hk : ∀ f ∈ fs, FeatKeyOk f.key) (hf : ∀ f ∈ fs, GbFeatOk f) :
+    parseFeatures (printFeatures fs) = .ok fs :=
+  feature_roundtrip fs hk hf
+
+/-- the column constants the line model uses are those of the current source -/
+theorem C12_gen_feature_columns :
+    Gen.C12.keyStart = 5 ∧ Gen.C12.qualStart = 21 ∧ Gen.C12.symbolsPerChunk = 10 ∧ Gen.C12.chunksPerLine = 6 := by
+  decide
+
 /-! ## Obligations on the tables regenerated from the source on every run -/
 
 /-- `_OFFSETS` (fastq/file.py): every format offset fits `int8` and maps score 0 to a printable,
@@ -283,5 +328,14 @@ example : gffGroup "ID".toList
      ⟨"gene".toList, (1, 12, some true), []⟩, ⟨"gene".toList, (20, 30, none), []⟩] =
     [⟨"CDS".toList, [(1, 5, some false), (9, 12, some false)], [("ID".toList, "a".toList)]⟩,
      ⟨"gene".toList, [(1, 12, some true)], []⟩, ⟨"gene".toList, [(20, 30, none)], []⟩] := by decide
+
+example : printFeatures [⟨"CDS".toList, [⟨5, 9, true, { bl := true }⟩], [("pseudo".toList, none), ("note".toList, some " a=/b\nc".toList)]⟩] =
+    ["     CDS             complement(<5..9)".toList, "                     /pseudo".toList,
+     "                     /note=\" a=/b\"".toList, "                     /note=\"c\"".toList] := by decide
+
+example : (printOrigin (-5) "ACGTACGTACGT".toList).map String.ofList = ["       -5 acgtacgtac gt"] := by decide
+
+example : (∀ c ∈ lower "ACGTN*acgt".toList, OSymOk c) ∧ QKeyOk "db/xref".toList ∧ QValOk " a=/b ".toList := by
+  unfold OSymOk QKeyOk QValOk; decide
 
 end BiotiteModel.C12
